@@ -47,13 +47,19 @@ Inductive flow : mode -> list (side * mk) -> Prop :=
 (* RFC 5246 figure 1 + RFC 5077 figure 1 + RFC 6066 + RFC 4279 *)
 | Flow12Full : forall md cstat ske creq ccv,
     md_v13 md = false -> md_res md <> ResYes ->
-    optional (md_ocsp md && negb (is_psk (md_kex md))) [KHs CSTAT] cstat ->                      (* RFC 6066: MAY be omitted *)
+    optional (md_ocsp md && negb (is_psk (md_kex md))) [KHs CSTAT] cstat ->                      (* RFC 6066: MAY be omitted ... *)
+    (h_ocsp_must_staple && md_ocsp md && negb (is_psk (md_kex md)) = true -> cstat = [KHs CSTAT]) ->  (* ... unless the receiver is a must-staple
+                                                                                                      build (USE_OCSP_MUST_STAPLE, Gen/ConstsHs.v): its policy is to
+                                                                                                      require the stapled response once status_request is acknowledged *)
     (match md_kex md with
      | KexRSA => ske = [] | KexECDHE => ske = [KHs SKE] | KexDHEPSK => ske = [KHs SKE]
      | KexPSK => optional true [KHs SKE] ske end) ->
     optional true [KHs CREQ] creq ->                                                               (* server's choice *)
     (creq = [] -> ccv = []) ->
     (creq <> [] -> ccv = [KHs CERT] \/ ccv = [KHs CERT; KHs CVFY]) ->                             (* CertificateVerify only with a signing certificate *)
+    (creq <> [] -> h_server_accepts_empty_client_cert = false -> ccv = [KHs CERT; KHs CVFY]) ->   (* a build without SERVER_WILL_ACCEPT_EMPTY_CLIENT_CERT_MSG refuses the
+                                                                                                      empty Certificate: one it accepts carries a certificate, so
+                                                                                                      CertificateVerify (proof of possession) MUST follow *)
     flow md (msgs_of Cl [KHs CH] ++
              msgs_of Sv ([KHs SH] ++ when (negb (is_psk (md_kex md))) [KHs CERT] ++ cstat ++ ske ++ creq ++ [KHs SHD]) ++
              msgs_of Cl (firstn 1 ccv ++ [KHs CKE] ++ skipn 1 ccv ++ [KCcs; KHs FIN]) ++
@@ -70,6 +76,7 @@ Inductive flow : mode -> list (side * mk) -> Prop :=
     optional (negb (match md_res md with ResYes => true | _ => false end)) [KHs CREQ] creq ->      (* never with PSK: RFC 8446 4.3.2 *)
     (creq = [] -> ccv = []) ->
     (creq <> [] -> ccv = [KHs CERT] \/ ccv = [KHs CERT; KHs CVFY]) ->                              (* empty Certificate: no CertificateVerify *)
+    (creq <> [] -> h_server_accepts_empty_client_cert = false -> ccv = [KHs CERT; KHs CVFY]) ->    (* as above *)
     Forall (fun k => k = KHs NST) nsts ->
     flow md (msgs_of Cl [KHs CH] ++
              when (md_hrr md) (msgs_of Sv [KHs SH] ++ msgs_of Cl [KHs CH]) ++
